@@ -278,8 +278,7 @@ def r5_3(ctx):
     var = loop[0].iter.id
     # bind the pattern variables of the function's shape first
     shape = [
-        ("msg_keys_to_delete = self.sequences['Deleted']", "expunge candidates = sequences['Deleted']", "expunge candidates are no longer exactly the \\Deleted sequence"),
-        ("to_delete = sorted(msg_keys_to_delete, reverse=True)", "deletion list = the \\Deleted keys, highest first", "the deletion list is no longer the \\Deleted keys"),
+        ("msg_keys_to_delete = self.sequences['Deleted']\nto_delete = sorted(msg_keys_to_delete, reverse=True)", "deletion list = the \\Deleted keys, highest first", "the deletion list is no longer exactly the \\Deleted sequence, highest key first"),
         ("uids_to_delete = [self.uids[self._msg_key_to_idx[x]] for x in to_delete]", "UIDs of the candidates taken position by position", "candidate UIDs are no longer read off the same positions as the candidate keys"),
     ]
     for pat, okmsg, badmsg in shape:
@@ -287,10 +286,8 @@ def r5_3(ctx):
             ctx.ok("R5.3", where(fi), okmsg)
         else:
             ctx.bad("R5.3", fi.module, fi.qual, pat, badmsg, fi.node.lineno)
-    restr_pats = [
-        "if uid_msg_set is not None:\n    ...\n    for uid in uid_msg_set:\n        if uid in uids_to_delete:\n            new_uids_to_delete.append(uid)\n            pos = uids_to_delete.index(uid)\n            new_to_delete.append(to_delete[pos])\n    to_delete = sorted(new_to_delete, reverse=True)\n    ...",
-        "if uid_msg_set:\n    ...\n    for uid in uid_msg_set:\n        if uid in uids_to_delete:\n            new_uids_to_delete.append(uid)\n            pos = uids_to_delete.index(uid)\n            new_to_delete.append(to_delete[pos])\n    to_delete = sorted(new_to_delete, reverse=True)\n    ...",
-    ]
+    _restr = "{test}\n    new_to_delete = []\n    new_uids_to_delete = []\n    for uid in uid_msg_set:\n        if uid in uids_to_delete:\n            new_uids_to_delete.append(uid)\n            pos = uids_to_delete.index(uid)\n            new_to_delete.append(to_delete[pos])\n    to_delete = sorted(new_to_delete, reverse=True)\n    ..."
+    restr_pats = [_restr.format(test="if uid_msg_set is not None:"), _restr.format(test="if uid_msg_set:")]
     if any(pm.has(x) for x in restr_pats):
         ctx.ok("R5.3", where(fi), "UID EXPUNGE: restricted to uids in both uid_msg_set and the \\Deleted set (key taken at the uid's position)")
     else:
@@ -306,7 +303,7 @@ def r5_3(ctx):
          "EXPUNGE returns early exactly when no message is \\Deleted", "the early return of EXPUNGE no longer fires exactly when the \\Deleted sequence is empty: EXPUNGE removes nothing although messages are flagged"),
         (["if uid_msg_set is None:\n    return"],
          "forced expunge without a UID list removes nothing", "the forced expunge (MOVE / POP3 QUIT) no longer returns when it was given no UID list"),
-        (["if msg_key not in self._msg_key_to_idx:\n    ...\n    continue"],
+        (["for msg_key in to_delete:\n    if msg_key not in self._msg_key_to_idx:\n        ...\n        continue\n    which = self._msg_key_to_idx[msg_key]\n    ..."],
          "a key that is no longer in the mailbox is skipped (and only such a key)", "the removal loop's skip test is no longer `key not in the index`: present messages are skipped / vanished ones dereferenced"),
         (["which = self._msg_key_to_idx[msg_key]"], "position of the key looked up in the reverse index", "the position of the message to remove is no longer looked up by its key"),
         (["del self.msg_keys[which]"], "msg_keys entry removed at that position", "the message key is no longer removed from msg_keys at the looked-up position"),
